@@ -9,7 +9,7 @@ PoolVal3 == (100 :> 3 @@ 101 :> 3 @@ 102 :> 2)
 Pool5 == {100, 101, 102, 103, 104}
 PoolVal5 == (100 :> 3 @@ 101 :> 3 @@ 102 :> 2 @@ 103 :> 1 @@ 104 :> 4)
 
-CONSTANT SimProfile   \* "mixed" | "flags" | "locks" | "plain": bias of the simulation-only minting
+CONSTANT SimProfile   \* "mixed" | "flags" | "locks" | "plain" | "deep": bias of the simulation-only minting
 
 VARIABLE hist      \* observation only: the delivered steps with the projection after each
 mcvars == <<tree, n, ndel, last, hist>>
@@ -29,7 +29,8 @@ MintSim ==
   LET id == Cardinality(Ids) IN
   \E vb \in {{b \in Ids : Valid(b)}} :
   \E rp \in {RandomElement(1..10)} :
-  \E p \in {IF rp <= 2 THEN RandomElement(Ids)                                    \* mostly extend the latest valid block
+  \E p \in {IF SimProfile = "deep" /\ rp <= 6 THEN RandomElement({b \in Ids : Height(b) <= 4})   \* fork points far below the head
+             ELSE IF rp <= 2 THEN RandomElement(Ids)                                    \* mostly extend the latest valid block
              ELSE IF rp <= 4 THEN RandomElement(vb)
              ELSE CHOOSE b \in vb : \A x \in vb : x <= b} :
   \E d \in {RandomElement(Diffs)} :
@@ -39,7 +40,7 @@ MintSim ==
   \E u \in {IF Valid(p) THEN Replay(p) ELSE GenesisU} :
   \E live \in {{u.outs[i].c : i \in u.unspent}} :
   \E mature \in {{u.outs[i].c : i \in {j \in u.unspent : ~u.outs[j].cb \/ u.outs[j].h + Maturity <= Height(p) + 1}}} :
-  \E good \in {{t \in bt : t.ins \subseteq mature /\ t.outs \cap live = {} /\ t.lock <= Height(p) + 1}} :
+  \E good \in {{t \in bt : t.ins \subseteq mature /\ t.outs \cap live = {} /\ LockH(t) <= Height(p) + 1}} :
   \E edge \in {{t \in bt : (\A c \in t.ins : c < 100) \/ t.lock # 0}} :
   \E t \in {IF SimProfile = "locks"
              THEN (IF r <= 2 \/ bt = {} THEN NoTx
@@ -81,6 +82,8 @@ MCNext == /\ Next
 MCSpec == MCInit /\ [][MCNext]_mcvars
 
 View == <<tree, n, ndel>>
+\* optional state constraint for configurations with a long trunk: forks start near the trunk head
+RecentParents == \A b \in Ids : b > Trunk => tree[b].parent >= Trunk - 1
 
 Done == AllMinted /\ ndel = MaxDeliveries
 Behaviour == [trunk |-> Trunk, pool |-> [c \in Pool |-> PoolVal[c]], tree |-> [b \in Ids |-> tree[b]], steps |-> hist,
